@@ -378,7 +378,8 @@ func (p *Process) waitUntilReady() bool {
 		return true
 	}
 	log.Error().Msgf("Process %s was aborted and won't become ready", p.getName())
-	p.setExitCode(1)
+	// (the exit code of this process is that of its own command: a dependent that
+	// gives up waiting here must not rewrite it)
 	return false
 
 }
